@@ -75,12 +75,41 @@ impl EventParser {
                 self.extract_type_name(&type_ref.elem)
             }
             Type::Path(type_path) => {
-                // Get the last segment of the path (the actual type name)
+                // Get the last segment of the path (the actual type name) and keep its
+                // generic arguments, so that Vec<User> is not mistaken for a type named Vec
                 if let Some(segment) = type_path.path.segments.last() {
-                    segment.ident.to_string()
+                    let ident = segment.ident.to_string();
+                    match &segment.arguments {
+                        syn::PathArguments::AngleBracketed(args) => {
+                            let inner: Vec<String> = args
+                                .args
+                                .iter()
+                                .filter_map(|arg| match arg {
+                                    syn::GenericArgument::Type(t) => {
+                                        Some(self.extract_type_name(t))
+                                    }
+                                    _ => None,
+                                })
+                                .collect();
+                            if inner.is_empty() {
+                                ident
+                            } else {
+                                format!("{}<{}>", ident, inner.join(", "))
+                            }
+                        }
+                        _ => ident,
+                    }
                 } else {
                     "unknown".to_string()
                 }
+            }
+            Type::Tuple(type_tuple) => {
+                let elems: Vec<String> = type_tuple
+                    .elems
+                    .iter()
+                    .map(|t| self.extract_type_name(t))
+                    .collect();
+                format!("({})", elems.join(", "))
             }
             _ => "unknown".to_string(),
         }
@@ -475,8 +504,8 @@ impl EventParser {
                 if tuple.elems.is_empty() {
                     return "()".to_string();
                 }
-                // For now, just mark as tuple
-                "tuple".to_string()
+                // The element types of a tuple expression are not syntactically evident
+                "unknown".to_string()
             }
             // Literal values
             Expr::Lit(lit) => match &lit.lit {
